@@ -136,4 +136,787 @@ theorem ownSlotsList_of_groupsIn (sg eg : Nat) : ∀ (es : List Expr), pureAll e
     · exact ownSlotsList_of_groupsIn sg eg es hp.2 hg.2 i hi
 end
 
+/-! ## A generic unary induction: relations between the start state and a result -/
+
+/-- what a relation `T st r` needs to hold between a state and every result of a pure expression -/
+structure RelOK (T : St → St → Prop) : Prop where
+  refl : ∀ st, T st st
+  trans : ∀ a b d, T a b → T b d → T a d
+  ix : ∀ st k, T st { st with ix := k }
+  group : ∀ g st r, T (st.setSlot (2 * g) (some st.ix)) r → T st (r.setSlot (2 * g + 1) (some r.ix))
+
+theorem repLoop_rel {T : St → St → Prop} (hT : RelOK T) (body : St → List St)
+    (hb : ∀ st r, r ∈ body st → T st r)
+    (lo : Nat) (hi : Option Nat) (greedy : Bool) (fuel count : Nat) (st r : St)
+    (h : r ∈ repLoop body lo hi greedy fuel count st) : T st r := by
+  induction fuel generalizing count st r with
+  | zero => simp [repLoop] at h
+  | succ fuel ih =>
+    unfold repLoop at h
+    split at h
+    · simp only [List.mem_singleton] at h; subst h; exact hT.refl _
+    · have hiters : ∀ q, q ∈ ((body st).flatMap fun r' =>
+            if hi.isNone && decide (lo ≤ count) && r'.ix == st.ix then [r']
+            else repLoop body lo hi greedy fuel (count + 1) r') → T st q := by
+        intro q hq
+        simp only [List.mem_flatMap] at hq
+        obtain ⟨r', hr', hmem⟩ := hq
+        have h1 := hb st r' hr'
+        split at hmem
+        · simp only [List.mem_singleton] at hmem; subst hmem; exact h1
+        · exact hT.trans _ _ _ h1 (ih _ _ _ hmem)
+      split at h
+      · exact hiters r h
+      · split at h
+        · rcases List.mem_append.mp h with h | h
+          · exact hiters r h
+          · simp only [List.mem_singleton] at h; subst h; exact hT.refl _
+        · rcases List.mem_cons.mp h with h | h
+          · subst h; exact hT.refl _
+          · exact hiters r h
+
+mutual
+theorem sem_rel {T : St → St → Prop} (hT : RelOK T) (c : Ctx) :
+    ∀ (e : Expr) (st r : St), pureExpr e = true → r ∈ sem c e st → T st r
+  | .empty, st, r, _, h => by simp [sem] at h; subst h; exact hT.refl _
+  | .any nl, st, r, _, h => by
+    simp only [sem] at h
+    split at h
+    · split at h
+      · simp at h; subst h; exact hT.ix _ _
+      · simp at h
+    · simp at h
+  | .assertion a, st, r, _, h => by
+    simp only [sem] at h; split at h
+    · simp at h; subst h; exact hT.refl _
+    · simp at h
+  | .literal val casei, st, r, _, h => by
+    simp only [sem] at h; split at h
+    · simp at h; subst h; exact hT.ix _ _
+    · simp at h
+  | .concat es, st, r, hp, h => by
+    simp only [pureExpr] at hp; simp only [sem] at h; exact semConcat_rel hT c es st r hp h
+  | .alt es, st, r, hp, h => by
+    simp only [pureExpr] at hp; simp only [sem] at h; exact semAlt_rel hT c es st r hp h
+  | .group g e, st, r, hp, h => by
+    simp only [pureExpr] at hp
+    simp only [sem, List.mem_map] at h
+    obtain ⟨r', hr', rfl⟩ := h
+    exact hT.group g st r' (sem_rel hT c e _ r' hp hr')
+  | .look _ _, _, _, hp, _ => by simp [pureExpr] at hp
+  | .repeat e lo hi greedy, st, r, hp, h => by
+    simp only [pureExpr] at hp
+    simp only [sem] at h
+    exact repLoop_rel hT (sem c e) (fun st r hr => sem_rel hT c e st r hp hr) lo hi greedy _ 0 st r h
+  | .delegate inner size casei, st, r, _, h => by
+    simp only [sem, delegateSem] at h
+    split at h
+    · split at h
+      · split at h
+        · simp at h; subst h; exact hT.ix _ _
+        · simp at h
+      · simp at h
+    · split at h
+      · split at h
+        · simp at h; subst h; exact hT.ix _ _
+        · simp at h
+      · simp at h
+  | .backref _, _, _, hp, _ => by simp [pureExpr] at hp
+  | .atomic _, _, _, hp, _ => by simp [pureExpr] at hp
+  | .keepOut, _, _, hp, _ => by simp [pureExpr] at hp
+  | .contPrev, _, _, hp, _ => by simp [pureExpr] at hp
+  | .backrefExists _, _, _, hp, _ => by simp [pureExpr] at hp
+  | .cond _ _ _, _, _, hp, _ => by simp [pureExpr] at hp
+  | .subroutine g, st, r, _, h => by simp [sem] at h
+termination_by e => sizeOf e
+decreasing_by all_goals (simp_wf; try omega)
+theorem semConcat_rel {T : St → St → Prop} (hT : RelOK T) (c : Ctx) :
+    ∀ (es : List Expr) (st r : St), pureAll es = true → r ∈ semConcat c es st → T st r
+  | [], st, r, _, h => by simp [semConcat] at h; subst h; exact hT.refl _
+  | e :: es, st, r, hp, h => by
+    simp only [pureAll, Bool.and_eq_true] at hp
+    simp only [semConcat, List.mem_flatMap] at h
+    obtain ⟨r1, hr1, hr⟩ := h
+    exact hT.trans _ _ _ (sem_rel hT c e st r1 hp.1 hr1) (semConcat_rel hT c es r1 r hp.2 hr)
+termination_by es => sizeOf es
+decreasing_by all_goals (simp_wf; try omega)
+theorem semAlt_rel {T : St → St → Prop} (hT : RelOK T) (c : Ctx) :
+    ∀ (es : List Expr) (st r : St), pureAll es = true → r ∈ semAlt c es st → T st r
+  | [], st, r, _, h => by simp [semAlt] at h
+  | e :: es, st, r, hp, h => by
+    simp only [pureAll, Bool.and_eq_true] at hp
+    simp only [semAlt, List.mem_append] at h
+    rcases h with h | h
+    · exact sem_rel hT c e st r hp.1 h
+    · exact semAlt_rel hT c es st r hp.2 h
+termination_by es => sizeOf es
+decreasing_by all_goals (simp_wf; try omega)
+end
+
+/-! ## Monotonicity and group pairs -/
+
+/-- `r` is `st` with some slots set (never cleared), and group pairs change together -/
+def PureStep (st r : St) : Prop :=
+  r.slots.length = st.slots.length ∧
+  (∀ i : Nat, r.slots[i]? = some none → st.slots[i]? = some none) ∧
+  (∀ g : Nat, r.slots[2 * g]? ≠ st.slots[2 * g]? → r.slots[2 * g + 1]? ≠ some none) ∧
+  (∀ g : Nat, r.slots[2 * g + 1]? ≠ st.slots[2 * g + 1]? → r.slots[2 * g]? ≠ some none)
+
+theorem PureStep_ok : RelOK PureStep where
+  refl st := ⟨rfl, fun _ h => h, fun _ h => absurd rfl h, fun _ h => absurd rfl h⟩
+  trans a b d h1 h2 := by
+    obtain ⟨l1, m1, f1, b1⟩ := h1
+    obtain ⟨l2, m2, f2, b2⟩ := h2
+    refine ⟨l2.trans l1, fun i h => m1 i (m2 i h), fun g h => ?_, fun g h => ?_⟩
+    · by_cases hd : d.slots[2 * g]? = b.slots[2 * g]?
+      · rw [hd] at h
+        exact fun hc => f1 g h (m2 _ hc)
+      · exact f2 g hd
+    · by_cases hd : d.slots[2 * g + 1]? = b.slots[2 * g + 1]?
+      · rw [hd] at h
+        exact fun hc => b1 g h (m2 _ hc)
+      · exact b2 g hd
+  ix st k := ⟨rfl, fun _ h => h, fun _ h => absurd rfl h, fun _ h => absurd rfl h⟩
+  group g st r h := by
+    obtain ⟨l, m, f, b⟩ := h
+    simp only [St.setSlot, List.length_set] at l m f b ⊢
+    refine ⟨by simpa using l, fun i hi => ?_, fun g' hg' => ?_, fun g' hg' => ?_⟩
+    · rw [List.getElem?_set] at hi
+      split at hi
+      · split at hi <;> simp at hi
+      · have := m i hi
+        rw [List.getElem?_set] at this
+        split at this
+        · split at this <;> simp at this
+        · exact this
+    · by_cases hgg : g' = g
+      · subst hgg
+        rw [List.getElem?_set]
+        simp only [↓reduceIte]
+        split <;> simp
+      · rw [List.getElem?_set, if_neg (by omega)] at hg' ⊢
+        have := f g'
+        rw [List.getElem?_set, if_neg (by omega)] at this
+        exact this hg'
+    · by_cases hgg : g' = g
+      · subst hgg
+        rw [List.getElem?_set, if_neg (by omega)]
+        intro hc
+        have := m _ hc
+        rw [List.getElem?_set] at this
+        simp only [↓reduceIte] at this
+        split at this <;> simp at this
+      · rw [List.getElem?_set, if_neg (by omega)] at hg' ⊢
+        have := b g'
+        rw [List.getElem?_set, if_neg (by omega)] at this
+        exact this hg'
+
+/-! ## A generic binary induction: a transformation of the slot vector commutes with `sem` -/
+
+/-- apply a transformation to the slot vector -/
+def mapSt (F : List (Option Nat) → List (Option Nat)) (r : St) : St := ⟨r.ix, F r.slots⟩
+
+@[simp] theorem mapSt_ix (F : List (Option Nat) → List (Option Nat)) (r : St) : (mapSt F r).ix = r.ix := rfl
+@[simp] theorem mapSt_slots (F : List (Option Nat) → List (Option Nat)) (r : St) : (mapSt F r).slots = F r.slots := rfl
+
+theorem flatMap_congr_of_mem {α β : Type} {l : List α} {f g : α → List β} (h : ∀ a, a ∈ l → f a = g a) :
+    l.flatMap f = l.flatMap g := by
+  induction l with
+  | nil => rfl
+  | cons a as ih =>
+    simp only [List.flatMap_cons]
+    rw [h a (by simp), ih (fun b hb => h b (by simp [hb]))]
+
+/-- `F` commutes with writing a `some` value into slot `i` of a vector of length `n`, for `i` in `W` -/
+def CommSet (F : List (Option Nat) → List (Option Nat)) (n : Nat) (W : Nat → Prop) : Prop :=
+  ∀ (a : List (Option Nat)) (i v : Nat), a.length = n → W i → F (a.set i (some v)) = (F a).set i (some v)
+
+theorem repLoop_map (F : List (Option Nat) → List (Option Nat)) (n : Nat) (body : St → List St)
+    (hlen : ∀ st r, r ∈ body st → r.slots.length = st.slots.length)
+    (hb : ∀ st, st.slots.length = n → body (mapSt F st) = (body st).map (mapSt F))
+    (lo : Nat) (hi : Option Nat) (greedy : Bool) (fuel count : Nat) (st : St) (hst : st.slots.length = n) :
+    repLoop body lo hi greedy fuel count (mapSt F st) =
+      (repLoop body lo hi greedy fuel count st).map (mapSt F) := by
+  induction fuel generalizing count st with
+  | zero => simp [repLoop]
+  | succ fuel ih =>
+    unfold repLoop
+    split
+    · simp
+    · have hiters : ((body (mapSt F st)).flatMap fun r =>
+            if (hi.isNone && decide (lo ≤ count) && r.ix == (mapSt F st).ix) = true then [r]
+            else repLoop body lo hi greedy fuel (count + 1) r) =
+          (((body st).flatMap fun r =>
+            if (hi.isNone && decide (lo ≤ count) && r.ix == st.ix) = true then [r]
+            else repLoop body lo hi greedy fuel (count + 1) r)).map (mapSt F) := by
+        rw [hb st hst, List.flatMap_map, List.map_flatMap]
+        apply flatMap_congr_of_mem
+        intro r hr
+        by_cases hc : (hi.isNone && decide (lo ≤ count) && r.ix == st.ix) = true
+        · have hc' : (hi.isNone && decide (lo ≤ count) && (mapSt F r).ix == (mapSt F st).ix) = true := hc
+          rw [if_pos hc', if_pos hc]; rfl
+        · have hc' : ¬ (hi.isNone && decide (lo ≤ count) && (mapSt F r).ix == (mapSt F st).ix) = true := hc
+          rw [if_neg hc', if_neg hc]; exact ih _ r ((hlen st r hr).trans hst)
+      simp only [hiters]
+      split
+      · rfl
+      · split
+        · simp
+        · simp
+
+mutual
+theorem sem_map (c : Ctx) (F : List (Option Nat) → List (Option Nat)) (n : Nat) (W : Nat → Prop)
+    (hF : CommSet F n W) :
+    ∀ (e : Expr) (st : St), pureExpr e = true → (∀ i, i ∈ ownSlots e → W i) → st.slots.length = n →
+      sem c e (mapSt F st) = (sem c e st).map (mapSt F)
+  | .empty, st, _, _, _ => by simp [sem]
+  | .any nl, st, _, _, _ => by
+    simp only [sem, mapSt_ix]
+    split
+    · split <;> simp [mapSt]
+    · simp
+  | .assertion a, st, _, _, _ => by
+    simp only [sem, mapSt_ix]; split <;> simp [*]
+  | .literal val casei, st, _, _, _ => by
+    simp only [sem, mapSt_ix]; split <;> simp [mapSt, *]
+  | .concat es, st, hp, hw, hl => by
+    simp only [pureExpr] at hp; simp only [ownSlots] at hw; simp only [sem]
+    exact semConcat_map c F n W hF es st hp hw hl
+  | .alt es, st, hp, hw, hl => by
+    simp only [pureExpr] at hp; simp only [ownSlots] at hw; simp only [sem]
+    exact semAlt_map c F n W hF es st hp hw hl
+  | .group g e, st, hp, hw, hl => by
+    simp only [pureExpr] at hp
+    simp only [sem]
+    have h1 : (mapSt F st).setSlot (2 * g) (some (mapSt F st).ix) = mapSt F (st.setSlot (2 * g) (some st.ix)) := by
+      simp only [St.setSlot, mapSt]
+      rw [hF st.slots (2 * g) st.ix hl (hw _ (by simp [ownSlots]))]
+    rw [h1, sem_map c F n W hF e _ hp (fun i hi => hw i (by simp [ownSlots, hi])) (by simpa [St.setSlot] using hl)]
+    rw [List.map_map, List.map_map]
+    apply List.map_congr_left
+    intro r hr
+    have hrl : r.slots.length = n := by
+      have := (sem_frame c e _ r hr).1
+      simpa [St.setSlot, hl] using this
+    simp only [Function.comp, St.setSlot, mapSt]
+    rw [hF r.slots (2 * g + 1) r.ix hrl (hw _ (by simp [ownSlots]))]
+  | .look _ _, _, hp, _, _ => by simp [pureExpr] at hp
+  | .repeat e lo hi greedy, st, hp, hw, hl => by
+    simp only [pureExpr] at hp
+    simp only [ownSlots] at hw
+    simp only [sem]
+    exact repLoop_map F n (sem c e) (fun st r hr => (sem_frame c e st r hr).1)
+      (fun st hst => sem_map c F n W hF e st hp hw hst) lo hi greedy _ 0 st hl
+  | .delegate inner size casei, st, _, _, _ => by
+    simp only [sem, delegateSem, mapSt_ix]
+    split
+    · split
+      · split <;> simp [mapSt]
+      · simp
+    · split
+      · split <;> simp [mapSt, *]
+      · simp
+  | .backref _, _, hp, _, _ => by simp [pureExpr] at hp
+  | .atomic _, _, hp, _, _ => by simp [pureExpr] at hp
+  | .keepOut, _, hp, _, _ => by simp [pureExpr] at hp
+  | .contPrev, _, hp, _, _ => by simp [pureExpr] at hp
+  | .backrefExists _, _, hp, _, _ => by simp [pureExpr] at hp
+  | .cond _ _ _, _, hp, _, _ => by simp [pureExpr] at hp
+  | .subroutine g, st, _, _, _ => by simp [sem]
+termination_by e => sizeOf e
+decreasing_by all_goals (simp_wf; try omega)
+theorem semConcat_map (c : Ctx) (F : List (Option Nat) → List (Option Nat)) (n : Nat) (W : Nat → Prop)
+    (hF : CommSet F n W) :
+    ∀ (es : List Expr) (st : St), pureAll es = true → (∀ i, i ∈ ownSlotsList es → W i) → st.slots.length = n →
+      semConcat c es (mapSt F st) = (semConcat c es st).map (mapSt F)
+  | [], st, _, _, _ => by simp [semConcat]
+  | e :: es, st, hp, hw, hl => by
+    simp only [pureAll, Bool.and_eq_true] at hp
+    simp only [semConcat]
+    rw [sem_map c F n W hF e st hp.1 (fun i hi => hw i (by simp [ownSlotsList, hi])) hl]
+    rw [List.flatMap_map, List.map_flatMap]
+    apply flatMap_congr_of_mem
+    intro r hr
+    exact semConcat_map c F n W hF es r hp.2 (fun i hi => hw i (by simp [ownSlotsList, hi]))
+      (((sem_frame c e st r hr).1).trans hl)
+termination_by es => sizeOf es
+decreasing_by all_goals (simp_wf; try omega)
+theorem semAlt_map (c : Ctx) (F : List (Option Nat) → List (Option Nat)) (n : Nat) (W : Nat → Prop)
+    (hF : CommSet F n W) :
+    ∀ (es : List Expr) (st : St), pureAll es = true → (∀ i, i ∈ ownSlotsList es → W i) → st.slots.length = n →
+      semAlt c es (mapSt F st) = (semAlt c es st).map (mapSt F)
+  | [], st, _, _, _ => by simp [semAlt]
+  | e :: es, st, hp, hw, hl => by
+    simp only [pureAll, Bool.and_eq_true] at hp
+    simp only [semAlt, List.map_append]
+    rw [sem_map c F n W hF e st hp.1 (fun i hi => hw i (by simp [ownSlotsList, hi])) hl,
+      semAlt_map c F n W hF es st hp.2 (fun i hi => hw i (by simp [ownSlotsList, hi])) hl]
+termination_by es => sizeOf es
+decreasing_by all_goals (simp_wf; try omega)
+end
+
+/-- **monotonicity**: a result of a pure expression only adds or overwrites `some` values -/
+theorem sem_mono (c : Ctx) (e : Expr) (st r : St) (hp : pureExpr e = true) (h : r ∈ sem c e st) :
+    r.slots.length = st.slots.length ∧ ∀ i : Nat, r.slots[i]? = some none → st.slots[i]? = some none :=
+  let t := sem_rel PureStep_ok c e st r hp h
+  ⟨t.1, t.2.1⟩
+
+theorem semConcat_mono (c : Ctx) (es : List Expr) (st r : St) (hp : pureAll es = true) (h : r ∈ semConcat c es st) :
+    r.slots.length = st.slots.length ∧ ∀ i : Nat, r.slots[i]? = some none → st.slots[i]? = some none :=
+  let t := semConcat_rel PureStep_ok c es st r hp h
+  ⟨t.1, t.2.1⟩
+
+theorem pairs_of_PureStep {st r : St} (t : PureStep st r) (g : Nat) (hlen : 2 * g + 1 < st.slots.length)
+    (h0 : st.slots[2 * g]? = some none) (h1 : st.slots[2 * g + 1]? = some none) :
+    (r.slots[2 * g]? = some none ∧ r.slots[2 * g + 1]? = some none) ∨
+      ∃ a b, r.slots[2 * g]? = some (some a) ∧ r.slots[2 * g + 1]? = some (some b) := by
+  obtain ⟨l, _, f, b⟩ := t
+  have e0 : r.slots[2 * g]? = some (r.slots[2 * g]'(by omega)) := List.getElem?_eq_getElem _
+  have e1 : r.slots[2 * g + 1]? = some (r.slots[2 * g + 1]'(by omega)) := List.getElem?_eq_getElem _
+  have f' := f g
+  have b' := b g
+  rw [h0] at f'
+  rw [h1] at b'
+  cases hx : r.slots[2 * g]'(by omega) with
+  | none =>
+    cases hy : r.slots[2 * g + 1]'(by omega) with
+    | none => left; rw [e0, e1, hx, hy]; exact ⟨rfl, rfl⟩
+    | some y =>
+      rw [hx] at e0; rw [hy] at e1
+      exact absurd e0 (b' (by rw [e1]; simp))
+  | some x =>
+    cases hy : r.slots[2 * g + 1]'(by omega) with
+    | none =>
+      rw [hx] at e0; rw [hy] at e1
+      exact absurd e1 (f' (by rw [e0]; simp))
+    | some y => right; exact ⟨x, y, by rw [e0, hx], by rw [e1, hy]⟩
+
+/-- **pairs**: from a state where both ends of group `g` are unset, every result of a pure
+    expression has both ends set or neither -/
+theorem sem_pairs (c : Ctx) (e : Expr) (st r : St) (hp : pureExpr e = true) (h : r ∈ sem c e st) (g : Nat)
+    (h0 : st.slots[2 * g]? = some none) (h1 : st.slots[2 * g + 1]? = some none) :
+    (∃ a, r.slots[2 * g]? = some (some a)) ↔ (∃ b, r.slots[2 * g + 1]? = some (some b)) := by
+  have hlen : 2 * g + 1 < st.slots.length := by
+    rcases Nat.lt_or_ge (2 * g + 1) st.slots.length with hl | hl
+    · exact hl
+    · rw [List.getElem?_eq_none hl] at h1; cases h1
+  rcases pairs_of_PureStep (sem_rel PureStep_ok c e st r hp h) g hlen h0 h1 with ⟨e0, e1⟩ | ⟨a, b, e0, e1⟩
+  · rw [e0, e1]
+  · rw [e0, e1]; exact ⟨fun _ => ⟨b, rfl⟩, fun _ => ⟨a, rfl⟩⟩
+
+theorem semConcat_pairs (c : Ctx) (es : List Expr) (st r : St) (hp : pureAll es = true)
+    (h : r ∈ semConcat c es st) (g : Nat)
+    (h0 : st.slots[2 * g]? = some none) (h1 : st.slots[2 * g + 1]? = some none) :
+    (∃ a, r.slots[2 * g]? = some (some a)) ↔ (∃ b, r.slots[2 * g + 1]? = some (some b)) := by
+  have hlen : 2 * g + 1 < st.slots.length := by
+    rcases Nat.lt_or_ge (2 * g + 1) st.slots.length with hl | hl
+    · exact hl
+    · rw [List.getElem?_eq_none hl] at h1; cases h1
+  rcases pairs_of_PureStep (semConcat_rel PureStep_ok c es st r hp h) g hlen h0 h1 with ⟨e0, e1⟩ | ⟨a, b, e0, e1⟩
+  · rw [e0, e1]
+  · rw [e0, e1]; exact ⟨fun _ => ⟨b, rfl⟩, fun _ => ⟨a, rfl⟩⟩
+
+/-! ## Obliviousness -/
+
+/-- `sl1` is `sl2` with some entries cleared -/
+def Below (sl1 sl2 : List (Option Nat)) : Prop :=
+  sl1.length = sl2.length ∧ ∀ i : Nat, sl1[i]? = some none ∨ sl1[i]? = sl2[i]?
+
+/-- the entries of `a`, and where `a` is unset those of `b` -/
+def overlay (a b : List (Option Nat)) : List (Option Nat) := List.zipWith (fun x y => x <|> y) a b
+
+theorem overlay_length (a b : List (Option Nat)) (h : a.length = b.length) : (overlay a b).length = b.length := by
+  simp [overlay, h]
+
+theorem overlay_getElem? (a b : List (Option Nat)) (h : a.length = b.length) (i : Nat) :
+    (overlay a b)[i]? = match a[i]? with
+      | some (some v) => some (some v)
+      | some none => b[i]?
+      | none => none := by
+  simp only [overlay, List.getElem?_zipWith]
+  rcases Nat.lt_or_ge i a.length with hl | hl
+  · rw [List.getElem?_eq_getElem hl, List.getElem?_eq_getElem (h ▸ hl)]
+    cases a[i] <;> simp
+  · rw [List.getElem?_eq_none hl]
+
+theorem overlay_of_Below {sl1 sl2 : List (Option Nat)} (h : Below sl1 sl2) : overlay sl1 sl2 = sl2 := by
+  apply List.ext_getElem?
+  intro i
+  rw [overlay_getElem? _ _ h.1]
+  rcases h.2 i with h1 | h1
+  · rw [h1]
+  · rcases Nat.lt_or_ge i sl1.length with hl | hl
+    · rw [← h1, List.getElem?_eq_getElem hl]
+      cases sl1[i] <;> rfl
+    · rw [List.getElem?_eq_none hl, List.getElem?_eq_none (h.1 ▸ hl)]
+
+theorem overlay_commSet (sl2 : List (Option Nat)) : CommSet (fun a => overlay a sl2) sl2.length (fun _ => True) := by
+  intro a i v hl _
+  apply List.ext_getElem?
+  intro j
+  simp only []
+  rw [overlay_getElem? _ _ (by simpa using hl), List.getElem?_set, List.getElem?_set,
+    overlay_length _ _ hl, overlay_getElem? _ _ hl]
+  by_cases hij : i = j
+  · subst hij
+    simp only [↓reduceIte, hl]
+    by_cases hi : i < sl2.length
+    · simp only [hi, ↓reduceIte]
+    · simp only [hi, ↓reduceIte]
+  · simp only [hij, ↓reduceIte]
+
+/-- **obliviousness**: a pure expression run from `sl2` gives the results it gives from any state
+    `Below` it, overlaid on `sl2` -/
+theorem sem_oblivious (c : Ctx) (e : Expr) (ix : Nat) (sl1 sl2 : List (Option Nat)) (hp : pureExpr e = true)
+    (hb : Below sl1 sl2) :
+    sem c e ⟨ix, sl2⟩ = (sem c e ⟨ix, sl1⟩).map (fun r => ⟨r.ix, overlay r.slots sl2⟩) := by
+  have := sem_map c (fun a => overlay a sl2) sl2.length (fun _ => True) (overlay_commSet sl2) e ⟨ix, sl1⟩ hp
+    (fun _ _ => trivial) hb.1
+  simp only [mapSt, overlay_of_Below hb] at this
+  exact this
+
+theorem semConcat_oblivious (c : Ctx) (es : List Expr) (ix : Nat) (sl1 sl2 : List (Option Nat))
+    (hp : pureAll es = true) (hb : Below sl1 sl2) :
+    semConcat c es ⟨ix, sl2⟩ = (semConcat c es ⟨ix, sl1⟩).map (fun r => ⟨r.ix, overlay r.slots sl2⟩) := by
+  have := semConcat_map c (fun a => overlay a sl2) sl2.length (fun _ => True) (overlay_commSet sl2) es ⟨ix, sl1⟩ hp
+    (fun _ _ => trivial) hb.1
+  simp only [mapSt, overlay_of_Below hb] at this
+  exact this
+
+/-- corollary: the two result lists have the same length and the same end positions, in order -/
+theorem sem_oblivious_ix (c : Ctx) (e : Expr) (ix : Nat) (sl1 sl2 : List (Option Nat)) (hp : pureExpr e = true)
+    (hb : Below sl1 sl2) :
+    (sem c e ⟨ix, sl2⟩).length = (sem c e ⟨ix, sl1⟩).length ∧
+      (sem c e ⟨ix, sl2⟩).map (·.ix) = (sem c e ⟨ix, sl1⟩).map (·.ix) := by
+  rw [sem_oblivious c e ix sl1 sl2 hp hb]
+  simp [Function.comp_def]
+
+/-! ## Trailing slots -/
+
+theorem append_commSet (V : List (Option Nat)) (n : Nat) : CommSet (fun a => a ++ V) n (fun i => i < n) := by
+  intro a i v hl hi
+  simp only [List.set_append, hl, hi, ↓reduceIte]
+
+/-- **frame for trailing slots**: cells beyond the slots of the groups are carried along unchanged -/
+theorem semConcat_trailing (c : Ctx) (es : List Expr) (ix : Nat) (sl V : List (Option Nat))
+    (hp : pureAll es = true) (hw : ∀ i, i ∈ ownSlotsList es → i < sl.length) :
+    semConcat c es ⟨ix, sl ++ V⟩ = (semConcat c es ⟨ix, sl⟩).map (fun r => ⟨r.ix, r.slots ++ V⟩) :=
+  semConcat_map c (fun a => a ++ V) sl.length (fun i => i < sl.length) (append_commSet V sl.length) es ⟨ix, sl⟩ hp hw rfl
+
+theorem sem_trailing (c : Ctx) (e : Expr) (ix : Nat) (sl V : List (Option Nat))
+    (hp : pureExpr e = true) (hw : ∀ i, i ∈ ownSlots e → i < sl.length) :
+    sem c e ⟨ix, sl ++ V⟩ = (sem c e ⟨ix, sl⟩).map (fun r => ⟨r.ix, r.slots ++ V⟩) :=
+  sem_map c (fun a => a ++ V) sl.length (fun i => i < sl.length) (append_commSet V sl.length) e ⟨ix, sl⟩ hp hw rfl
+
+/-! ## `clearGroups`, `viewSlots` -/
+
+theorem clearGroups_aux (sl : List (Option Nat)) (sg k : Nat) :
+    ((List.range k).foldl (fun sl i => (sl.set ((sg + i) * 2) none).set ((sg + i) * 2 + 1) none) sl).length = sl.length ∧
+    ∀ i : Nat, ((List.range k).foldl (fun sl i => (sl.set ((sg + i) * 2) none).set ((sg + i) * 2 + 1) none) sl)[i]? =
+      if sg * 2 ≤ i ∧ i < (sg + k) * 2 ∧ i < sl.length then some none else sl[i]? := by
+  induction k with
+  | zero =>
+    refine ⟨rfl, fun i => ?_⟩
+    simp only [List.range_zero, List.foldl_nil]
+    rw [if_neg (by omega)]
+  | succ k ih =>
+    simp only [List.range_succ, List.foldl_append, List.foldl_cons, List.foldl_nil, List.length_set]
+    refine ⟨ih.1, fun i => ?_⟩
+    rw [List.getElem?_set, List.getElem?_set, List.length_set, ih.1, ih.2 i]
+    by_cases h1 : (sg + k) * 2 + 1 = i
+    · subst h1
+      by_cases hl : (sg + k) * 2 + 1 < sl.length
+      · rw [if_pos rfl, if_pos hl, if_pos (by omega)]
+      · rw [if_pos rfl, if_neg hl, if_neg (by omega), List.getElem?_eq_none (by omega)]
+    · rw [if_neg h1]
+      by_cases h2 : (sg + k) * 2 = i
+      · subst h2
+        by_cases hl : (sg + k) * 2 < sl.length
+        · rw [if_pos rfl, if_pos hl, if_pos (by omega)]
+        · rw [if_pos rfl, if_neg hl, if_neg (by omega), List.getElem?_eq_none (by omega)]
+      · rw [if_neg h2]
+        by_cases h3 : sg * 2 ≤ i ∧ i < (sg + k) * 2 ∧ i < sl.length
+        · rw [if_pos h3, if_pos (by omega)]
+        · rw [if_neg h3, if_neg (by omega)]
+
+theorem clearGroups_length (sl : List (Option Nat)) (sg eg : Nat) : (clearGroups sl sg eg).length = sl.length :=
+  (clearGroups_aux sl sg (eg - sg)).1
+
+theorem clearGroups_getElem? (sl : List (Option Nat)) (sg eg : Nat) (i : Nat) :
+    (clearGroups sl sg eg)[i]? = if sg * 2 ≤ i ∧ i < eg * 2 ∧ i < sl.length then some none else sl[i]? := by
+  have := (clearGroups_aux sl sg (eg - sg)).2 i
+  unfold clearGroups
+  rw [this]
+  by_cases h : sg * 2 ≤ i ∧ i < eg * 2 ∧ i < sl.length
+  · rw [if_pos h, if_pos (by omega)]
+  · rw [if_neg h, if_neg (by omega)]
+
+theorem clearGroups_Below (sl : List (Option Nat)) (sg eg : Nat) : Below (clearGroups sl sg eg) sl := by
+  refine ⟨clearGroups_length sl sg eg, fun i => ?_⟩
+  rw [clearGroups_getElem?]
+  split
+  · left; rfl
+  · right; rfl
+
+theorem clearGroups_append_slots (sl V : List (Option Nat)) (sg eg : Nat) (h : eg * 2 ≤ sl.length) :
+    clearGroups (sl ++ V) sg eg = clearGroups sl sg eg ++ V := by
+  apply List.ext_getElem?
+  intro i
+  rw [clearGroups_getElem?]
+  rcases Nat.lt_or_ge i sl.length with hl | hl
+  · rw [List.getElem?_append_left (l₁ := clearGroups sl sg eg) (by rw [clearGroups_length]; exact hl),
+      clearGroups_getElem?, List.getElem?_append_left hl]
+    by_cases h3 : sg * 2 ≤ i ∧ i < eg * 2 ∧ i < sl.length
+    · rw [if_pos h3, if_pos ⟨h3.1, h3.2.1, by simp; omega⟩]
+    · rw [if_neg h3, if_neg (by simp; omega)]
+  · rw [if_neg (by omega), List.getElem?_append_right hl,
+      List.getElem?_append_right (by rw [clearGroups_length]; exact hl), clearGroups_length]
+
+theorem viewSlots_unview_of_ne (sl : List (Option Nat)) (h : ∀ v, some v ∈ sl → v ≠ UNSET) : viewSlots (unview sl) = sl := by
+  induction sl with
+  | nil => rfl
+  | cons x xs ih =>
+    simp only [viewSlots, unview, List.map_cons, List.map_map] at ih ⊢
+    rw [ih (fun v hv => h v (by simp [hv]))]
+    cases x with
+    | none => simp
+    | some v =>
+      have := h v (by simp)
+      simp [this]
+
+theorem viewSlots_append_aux (a b : List Nat) : viewSlots (a ++ b) = viewSlots a ++ viewSlots b := by
+  simp [viewSlots]
+
+theorem viewSlots_of_good {c : Ctx} {n : Nat} {st : St} (hg : st.Good c n) (hlen : c.len < UNSET) (aux : List Nat) :
+    viewSlots (unview st.slots ++ aux) = st.slots ++ viewSlots aux := by
+  rw [viewSlots_append_aux, viewSlots_unview_of_ne]
+  intro v hv
+  have := hg.vals v hv
+  omega
+
+/-! ## `copyGroupsA` writes exactly the overlay -/
+
+theorem unview_overlay_unset (q sl : List (Option Nat)) (h : q.length = sl.length) (i : Nat)
+    (hi : q[i]? = some none) (aux : List Nat) : (unview (overlay q sl))[i]? = (unview sl ++ aux)[i]? := by
+  have hl : i < sl.length := by
+    rcases Nat.lt_or_ge i q.length with hl | hl
+    · omega
+    · rw [List.getElem?_eq_none hl] at hi; cases hi
+  rw [List.getElem?_append_left (by simpa using hl), unview_getElem?, unview_getElem?, overlay_getElem? _ _ h, hi]
+
+theorem unview_overlay_set (q sl : List (Option Nat)) (h : q.length = sl.length) (i a : Nat)
+    (hi : q[i]? = some (some a)) : (unview (overlay q sl))[i]? = some a := by
+  rw [unview_getElem?, overlay_getElem? _ _ h, hi]
+  rfl
+
+theorem copyGroupsA_spec (q : St) (sl V : List (Option Nat)) (aux : List Nat) (sg K n : Nat)
+    (hq : q.slots.length = n) (hsl : sl.length = n)
+    (hpair : ∀ g, sg ≤ g → g < sg + K → g * 2 + 1 < n ∧
+      ((q.slots[g * 2]? = some none ∧ q.slots[g * 2 + 1]? = some none) ∨
+        ∃ a b, q.slots[g * 2]? = some (some a) ∧ q.slots[g * 2 + 1]? = some (some b))) :
+    ∀ k, k ≤ K → ∃ out, copyGroupsA ⟨q.ix, q.slots ++ V⟩ sg k (unview sl ++ aux) = some out ∧
+      out.length = n + aux.length ∧
+      ∀ i : Nat, out[i]? = if sg * 2 ≤ i ∧ i < (sg + k) * 2 then (unview (overlay q.slots sl))[i]?
+        else (unview sl ++ aux)[i]? := by
+  intro k
+  induction k with
+  | zero =>
+    intro _
+    refine ⟨unview sl ++ aux, rfl, by simp [hsl], fun i => ?_⟩
+    rw [if_neg (by omega)]
+  | succ k ih =>
+    intro hk
+    obtain ⟨out, ho, hlen, hget⟩ := ih (by omega)
+    have hp := hpair (sg + k) (by omega) (by omega)
+    have hql : q.slots.length = sl.length := hq.trans hsl.symm
+    have s0 : (⟨q.ix, q.slots ++ V⟩ : St).slot ((sg + k) * 2) = (q.slots[(sg + k) * 2]?).join := by
+      simp only [St.slot]; rw [List.getElem?_append_left (by omega)]
+    have s1 : (⟨q.ix, q.slots ++ V⟩ : St).slot ((sg + k) * 2 + 1) = (q.slots[(sg + k) * 2 + 1]?).join := by
+      simp only [St.slot]; rw [List.getElem?_append_left (by omega)]
+    rcases hp.2 with ⟨e0, e1⟩ | ⟨a, b, e0, e1⟩
+    · refine ⟨out, ?_, hlen, fun i => ?_⟩
+      · simp only [copyGroupsA, ho, s0, s1, e0, e1, Option.join_some]
+      · rw [hget i]
+        by_cases h1 : sg * 2 ≤ i ∧ i < (sg + k) * 2
+        · rw [if_pos h1, if_pos (by omega)]
+        · rw [if_neg h1]
+          by_cases h2 : i = (sg + k) * 2
+          · subst h2
+            rw [if_pos (by omega)]
+            exact (unview_overlay_unset _ _ hql _ e0 aux).symm
+          · by_cases h3 : i = (sg + k) * 2 + 1
+            · subst h3
+              rw [if_pos (by omega)]
+              exact (unview_overlay_unset _ _ hql _ e1 aux).symm
+            · rw [if_neg (by omega)]
+    · refine ⟨(out.set ((sg + k) * 2) a).set ((sg + k) * 2 + 1) b, ?_, by simpa using hlen, fun i => ?_⟩
+      · simp only [copyGroupsA, ho, s0, s1, e0, e1, Option.join_some]
+        rw [if_pos (by omega)]
+      · rw [List.getElem?_set, List.getElem?_set, List.length_set, hget i]
+        by_cases h3 : (sg + k) * 2 + 1 = i
+        · subst h3
+          rw [if_pos rfl, if_pos (by omega), if_pos (by omega)]
+          exact (unview_overlay_set _ _ hql _ b e1).symm
+        · rw [if_neg h3]
+          by_cases h2 : (sg + k) * 2 = i
+          · subst h2
+            rw [if_pos rfl, if_pos (by omega), if_pos (by omega)]
+            exact (unview_overlay_set _ _ hql _ a e0).symm
+          · rw [if_neg h2]
+            by_cases h1 : sg * 2 ≤ i ∧ i < (sg + k) * 2
+            · rw [if_pos h1, if_pos (by omega)]
+            · rw [if_neg h1, if_neg (by omega)]
+
+/-! ## The specification of the `Delegate` instruction -/
+
+/-- **What `Delegate es sg eg` does**, in terms of the reference semantics from the CURRENT state.
+    `st` is the semantic state, `unview st.slots ++ aux` the machine's ordinary slots (capture slots,
+    then anything: loop counters, look-around positions). The oracle (run with the groups `sg .. eg-1`
+    cleared) fails exactly when `semConcat c es st` has no result; otherwise it ends where the first
+    result `r` of `semConcat c es st` ends, and copying the groups that took part produces exactly the
+    machine image of `r.slots` (groups that did not take part keep their old values, as in `r`). -/
+theorem delegate_step_spec (c : Ctx) (n : Nat) (es : List Expr) (sg eg : Nat) (st : St) (aux : List Nat)
+    (hg : st.Good c n) (hlen : c.len < UNSET) (hp : pureAll es = true) (hgi : groupsIn sg eg es = true)
+    (hn : eg * 2 ≤ n) :
+    (delegateOracle c es sg eg st.ix (unview st.slots ++ aux) = none ↔ semConcat c es st = []) ∧
+    (∀ r rest, semConcat c es st = r :: rest →
+      ∃ r0, delegateOracle c es sg eg st.ix (unview st.slots ++ aux) = some r0 ∧ r0.ix = r.ix ∧
+        (if sg == eg then r.slots = st.slots
+         else copyGroupsA r0 sg (eg - sg) (unview st.slots ++ aux) = some (unview r.slots ++ aux))) := by
+  have hown := ownSlotsList_of_groupsIn sg eg es hp hgi
+  have hsl : st.slots.length = n := hg.len
+  have hcll : (clearGroups st.slots sg eg).length = n := by rw [clearGroups_length]; exact hsl
+  -- the oracle's start state
+  have horacle : delegateOracle c es sg eg st.ix (unview st.slots ++ aux) =
+      ((semConcat c es ⟨st.ix, clearGroups st.slots sg eg⟩).map
+        (fun q => (⟨q.ix, q.slots ++ viewSlots aux⟩ : St))).head? := by
+    rw [C01_delegateOracle_eq, delegateOracleSpec, viewSlots_of_good hg hlen, clearGroups_append_slots _ _ _ _ (by omega),
+      semConcat_trailing c es st.ix _ _ hp (fun i hi => by have := hown i hi; omega)]
+  -- the reference semantics from the current state
+  have hsem : semConcat c es st =
+      (semConcat c es ⟨st.ix, clearGroups st.slots sg eg⟩).map
+        (fun q => (⟨q.ix, overlay q.slots st.slots⟩ : St)) :=
+    semConcat_oblivious c es st.ix _ st.slots hp (clearGroups_Below st.slots sg eg)
+  rw [horacle]
+  cases hL : semConcat c es ⟨st.ix, clearGroups st.slots sg eg⟩ with
+  | nil =>
+    rw [hL] at hsem
+    refine ⟨by simp [hsem], fun r rest h => ?_⟩
+    rw [hsem] at h; cases h
+  | cons q qs =>
+    rw [hL] at hsem
+    refine ⟨by simp [hsem], fun r rest h => ?_⟩
+    have hr : r = ⟨q.ix, overlay q.slots st.slots⟩ := by
+      rw [hsem] at h; simp only [List.map_cons, List.cons.injEq] at h; exact h.1.symm
+    have hq : q ∈ semConcat c es ⟨st.ix, clearGroups st.slots sg eg⟩ := by rw [hL]; simp
+    have hfr := semConcat_frame c es st r (by rw [h]; simp)
+    refine ⟨⟨q.ix, q.slots ++ viewSlots aux⟩, by simp, by rw [hr], ?_⟩
+    split
+    · rename_i hse
+      have hse : sg = eg := by simpa using hse
+      apply List.ext_getElem?
+      intro i
+      exact hfr.2 i (fun hi => by have := hown i hi; omega)
+    · have ht := semConcat_rel PureStep_ok c es _ q hp hq
+      have hql : q.slots.length = n := by rw [ht.1]; exact hcll
+      obtain ⟨out, ho, holen, hoget⟩ := copyGroupsA_spec q st.slots (viewSlots aux) aux sg (eg - sg) n hql hsl
+        (by
+          intro g h1 h2
+          refine ⟨by omega, ?_⟩
+          have h0 : (clearGroups st.slots sg eg)[2 * g]? = some none := by
+            rw [clearGroups_getElem?, if_pos (by omega)]
+          have h1' : (clearGroups st.slots sg eg)[2 * g + 1]? = some none := by
+            rw [clearGroups_getElem?, if_pos (by omega)]
+          have := pairs_of_PureStep ht g (by simp only []; omega) h0 h1'
+          rw [Nat.mul_comm g 2]
+          exact this) (eg - sg) (Nat.le_refl _)
+      rw [ho]
+      congr 1
+      apply List.ext_getElem?
+      intro i
+      rw [hoget i, hr]
+      simp only []
+      have hovl : (overlay q.slots st.slots).length = n := by
+        rw [overlay_length _ _ (hql.trans hsl.symm)]; exact hsl
+      by_cases h1 : sg * 2 ≤ i ∧ i < (sg + (eg - sg)) * 2
+      · rw [if_pos h1, List.getElem?_append_left (by rw [unview_length, hovl]; omega)]
+      · rw [if_neg h1]
+        rcases Nat.lt_or_ge i n with hi | hi
+        · rw [List.getElem?_append_left (by rw [unview_length, hsl]; exact hi),
+            List.getElem?_append_left (by rw [unview_length, hovl]; exact hi), unview_getElem?, unview_getElem?]
+          have := hfr.2 i (fun hi => by have := hown i hi; omega)
+          rw [hr] at this
+          rw [this]
+        · rw [List.getElem?_append_right (by rw [unview_length, hsl]; exact hi),
+            List.getElem?_append_right (by rw [unview_length, hovl]; exact hi), unview_length, unview_length, hovl, hsl]
+
+/-! ## Examples: `(?:(a)|b)` on the text `b`, group 1 holding the span of an earlier iteration -/
+
+/-- text `b`; literal characters match themselves -/
+def dsCtx : Ctx := ⟨['b'], 0, false, fun _ => false, fun _ _ _ => false, fun _ a b => a == b⟩
+/-- `(?:(a)|b)` with the group numbered 1 -/
+def dsEs : List Expr := [.alt [.group 1 (.literal ['a'] false), .literal ['b'] false]]
+/-- two groups; group 1 holds `0..1` from an earlier iteration -/
+def dsSt : St := ⟨0, [some 0, none, some 0, some 1]⟩
+
+/-- the hypotheses of `pure_of_not_hard` hold of the example (and so does its conclusion) -/
+example : isHardAny (fun _ => false) dsEs = false ∧ pureAll dsEs = true := by
+  simp [dsEs, isHardAny, isHard, pureAll, pureExpr]
+
+/-- the hypotheses of `delegate_step_spec` are satisfiable -/
+theorem ds_hyps : dsSt.Good dsCtx 4 ∧ dsCtx.len < UNSET ∧ pureAll dsEs = true ∧ groupsIn 1 2 dsEs = true ∧ 2 * 2 ≤ 4 := by
+  refine ⟨⟨by simp [dsSt, dsCtx, Ctx.len], rfl, ?_⟩, by simp [dsCtx, Ctx.len, UNSET], ?_, ?_, by omega⟩
+  · intro v hv
+    simp [dsSt] at hv
+    rcases hv with rfl | rfl <;> simp [dsCtx, Ctx.len]
+  · simp [dsEs, pureAll, pureExpr]
+  · simp [dsEs, groupsIn, groupsInE]
+
+/-- the reference semantics from the current state: `b` matches, group 1 keeps its old span -/
+theorem ds_sem : semConcat dsCtx dsEs dsSt = [⟨1, [some 0, none, some 0, some 1]⟩] := by
+  simp [dsEs, dsSt, dsCtx, semConcat, sem, semAlt, Ctx.litAt, Ctx.at?, St.setSlot]
+
+/-- the oracle runs with group 1 cleared: its result has group 1 unset (`7` is an auxiliary slot) -/
+theorem ds_oracle : delegateOracle dsCtx dsEs 1 2 0 (unview dsSt.slots ++ [7]) =
+    some ⟨1, [some 0, none, none, none, some 7]⟩ := by
+  rw [C01_delegateOracle_eq]
+  simp [delegateOracleSpec, dsEs, dsSt, dsCtx, semConcat, sem, semAlt, Ctx.litAt, Ctx.at?, St.setSlot,
+    unview, viewSlots, clearGroups, UNSET, List.range_succ]
+
+/-- group 1 did not take part: the copy leaves the machine's slots (the old span) as they were -/
+theorem ds_copy : copyGroupsA ⟨1, [some 0, none, none, none, some 7]⟩ 1 (2 - 1) (unview dsSt.slots ++ [7]) =
+    some (unview dsSt.slots ++ [7]) := by
+  simp [copyGroupsA, St.slot, dsSt, unview]
+
+/-- the same, obtained from `delegate_step_spec` -/
+example : ∃ r0, delegateOracle dsCtx dsEs 1 2 dsSt.ix (unview dsSt.slots ++ [7]) = some r0 ∧ r0.ix = 1 ∧
+    copyGroupsA r0 1 (2 - 1) (unview dsSt.slots ++ [7]) = some (unview [some 0, none, some 0, some 1] ++ [7]) := by
+  obtain ⟨hg, hl, hp, hgi, hn⟩ := ds_hyps
+  obtain ⟨r0, h1, h2, h3⟩ := (delegate_step_spec dsCtx 4 dsEs 1 2 dsSt [7] hg hl hp hgi hn).2 _ _ ds_sem
+  exact ⟨r0, h1, h2, by simpa using h3⟩
+
+/-- and the failing side: on the text `b`, `(?:(a)|c)` has no result and the oracle fails -/
+example : delegateOracle dsCtx [.alt [.group 1 (.literal ['a'] false), .literal ['c'] false]] 1 2 dsSt.ix
+    (unview dsSt.slots ++ [7]) = none := by
+  obtain ⟨hg, hl, _, _, hn⟩ := ds_hyps
+  refine (delegate_step_spec dsCtx 4 _ 1 2 dsSt [7] hg hl (by simp [pureAll, pureExpr])
+    (by simp [groupsIn, groupsInE]) hn).1.mpr ?_
+  simp [dsSt, dsCtx, semConcat, sem, semAlt, Ctx.litAt, Ctx.at?, St.setSlot]
+
+/-- `Below` / obliviousness on the example: from the cleared state the result has group 1 unset, and
+    overlaying it on the current slots gives the result from the current state -/
+example : Below [some 0, none, none, none] dsSt.slots ∧
+    semConcat dsCtx dsEs ⟨0, [some 0, none, none, none]⟩ = [⟨1, [some 0, none, none, none]⟩] ∧
+    overlay [some 0, none, none, none] dsSt.slots = [some 0, none, some 0, some 1] := by
+  refine ⟨?_, ?_, ?_⟩
+  · have := clearGroups_Below dsSt.slots 1 2
+    simpa [clearGroups, dsSt, List.range_succ] using this
+  · simp [dsEs, dsCtx, semConcat, sem, semAlt, Ctx.litAt, Ctx.at?, St.setSlot]
+  · simp [overlay, dsSt]
+
+/-- monotonicity / pairs on a group that does take part: `(a)` on `a` from the cleared state -/
+example : sem ⟨['a'], 0, false, fun _ => false, fun _ _ _ => false, fun _ a b => a == b⟩
+    (.group 1 (.literal ['a'] false)) ⟨0, [some 0, none, none, none]⟩ = [⟨1, [some 0, none, some 0, some 1]⟩] := by
+  simp [sem, Ctx.litAt, Ctx.at?, St.setSlot]
+
 end Fancy
